@@ -49,6 +49,8 @@ Proof. exact uri_classes. Qed.
 Theorem C16_abs_path_suffix : forall u,
   abs_path u = [] \/ exists pre r, u = pre ++ abs_path u /\ abs_path u = SLASH :: r.
 Proof. exact abs_path_suffix. Qed.
+Theorem C16_abs_path_idempotent : forall u, abs_path (abs_path u) = abs_path u.
+Proof. exact abs_path_idempotent. Qed.
 
 (* non-vacuity: concrete inputs meeting the hypotheses *)
 Example C16_ex_absolute : abs_path (B"http://localhost:80/a/b") = B"/a/b".
@@ -74,3 +76,4 @@ Print Assumptions C16_abs_path_no_path.
 Print Assumptions C16_abs_path_otherwise.
 Print Assumptions C16_uri_classes_exhaustive.
 Print Assumptions C16_abs_path_suffix.
+Print Assumptions C16_abs_path_idempotent.
